@@ -58,11 +58,14 @@ func (f *Subtract) Call(s *slip.Scope, args slip.List, depth int) (dif slip.Obje
 				case slip.DoubleFloat:
 					dif = -td
 				case *slip.LongFloat:
-					dif = (*slip.LongFloat)((*big.Float)(td).Neg((*big.Float)(td)))
+					var z big.Float
+					dif = (*slip.LongFloat)(z.Neg((*big.Float)(td)))
 				case *slip.Bignum:
-					dif = (*slip.Bignum)((*big.Int)(td).Neg((*big.Int)(td)))
+					var z big.Int
+					dif = (*slip.Bignum)(z.Neg((*big.Int)(td)))
 				case *slip.Ratio:
-					dif = (*slip.Ratio)((*big.Rat)(td).Neg((*big.Rat)(td)))
+					var z big.Rat
+					dif = (*slip.Ratio)(z.Neg((*big.Rat)(td)))
 				case slip.Complex:
 					dif = slip.Complex(-complex128(td))
 				}
